@@ -400,4 +400,38 @@ theorem opConvertWO_idxFrame (cfg : Cfg) (s : State K P) : IdxFrame s (opConvert
           simp [h0] at hc; subst hc
           exact Or.inl ⟨ai, by simp [cacheAt, hsm, h0], rfl, rfl⟩
 
+theorem opRename_idxFrame (s : State K P) (sc : Scope) (acct name : Nat) : IdxFrame s (opRename s sc acct name).1 := by
+  unfold opRename
+  split
+  · exact IdxFrame.refl _
+  · split
+    · exact IdxFrame.refl _
+    · rename_i sd hsd
+      split
+      · exact IdxFrame.refl _
+      · split
+        · exact IdxFrame.refl _
+        · split
+          · exact IdxFrame.refl _
+          · rename_i row hrow
+            have hr := acctRow_renameState hsd hrow name
+            obtain ⟨_, _, _, _, g5, _⟩ := renameState_frame hsd acct row name
+            have hrow0 : acctRow s sc acct = some row := by rw [acctRow_of_getSD hsd]; exact hrow
+            refine ⟨fun sc' a => ?_, fun sc' a ai' hc => ?_⟩
+            · show (acctRow (renameState s sc sd acct row name) sc' a).map rowIdx = _
+              rw [hr]
+              by_cases hc : sc = sc' ∧ acct = a
+              · obtain ⟨e1, e2⟩ := hc; subst e1; subst e2
+                simp [hrow0, rowIdx]
+              · simp [hc]
+            · have hc' : cacheAt (renameState s sc sd acct row name) sc' a = some ai' := hc
+              rw [g5] at hc'
+              cases h0 : cacheAt s sc' a with
+              | none => rw [h0] at hc'; cases hc'
+              | some ai0 =>
+                rw [h0] at hc'
+                simp only [Option.map_some, Option.some.injEq] at hc'
+                refine Or.inl ⟨ai0, rfl, ?_, ?_⟩ <;>
+                  (rw [← hc']; unfold renamedInfo; split <;> rfl)
+
 end AddrDerive
